@@ -20,6 +20,8 @@ func writeIfChanged(path, content string) {
 }
 
 // cmdGen regenerates coq/gen/*.v from the implementation as it is now.
+func init() { register("gen", func(a Args) { cmdGen(a.Out) }) }
+
 func cmdGen(out string) {
 	var sb strings.Builder
 	sb.WriteString("(* GENERATED from /repo by `harness gen` (VerifConsts): do not edit. *)\nFrom Coq Require Import NArith.\nLocal Open Scope N_scope.\n")
